@@ -52,7 +52,8 @@ WireRun(h) == h.out.set /\ h.par.entry = "proto"
 snt1(h) == SentOfRun(h, 1)
 dl1(h) == DelOfRun(h, 1)
 
-PropIds == {"C01", "C02", "C03", "C04", "C05", "C06", "C07", "C08", "C09", "C10"}
+PropIds == {"C01", "C02", "C03", "C04", "C05", "C06", "C07", "C08", "C09", "C10", "C11", "C15", "C19", "C20"}
+ReqRun(h) == h.out.set /\ h.par.entry = "run"
 EngRun(h) == h.out.set /\ h.par.entry = "engine"
 
 \* C09: the noisy run equals its noise-free twin, except for hops that an injected packet legitimately explains
@@ -83,6 +84,7 @@ C09_twin(h, s, d) ==
 App(p, h) ==
     LET s == snt1(h)  ok == h.out.ok IN
     CASE EngRun(h) -> p \in {"C03", "C05", "C06", "C08", "C10"} \/ (p = "C07" /\ h.par.variant = "engine_parallel")
+      [] ReqRun(h) -> p = "C15" \/ (p = "C19" /\ h.par.expect.kind # "none")
       [] p \in {"C01", "C04", "C05"} -> WireRun(h) /\ ok
       [] p \in {"C02", "C03"}        -> WireRun(h) /\ ok /\ Len(s) >= 1
       [] p \in {"C06", "C08", "C10"} -> WireRun(h)
@@ -98,6 +100,7 @@ Holds(p, h) ==
     LET s == snt1(h)  d == dl1(h)  hp == h.out.hops IN
     CASE EngRun(h) -> (CASE p = "C03" -> C03_eng(h) [] p = "C05" -> C05_eng(h) [] p = "C06" -> C06_eng(h)
                           [] p = "C07" -> C07_eng(h) [] p = "C08" -> C08_eng(h) [] p = "C10" -> C10_eng(h) [] OTHER -> TRUE)
+      [] ReqRun(h) -> (CASE p = "C15" -> C15_run(h) [] p = "C19" -> C19_run(h) [] OTHER -> TRUE)
       [] p = "C01" -> C01_run(h, s, d, hp)
       [] p = "C02" -> C02_run(h, s, d, hp)
       [] p = "C03" -> C03_run(h, s, d, hp)
